@@ -578,6 +578,15 @@ def worker(f):
             # the peer has dropped the data connection (workers do not
             # touch the command connection): the session goes on
             connection.response("426", "data connection lost, transfer aborted")
+        except errors.PathIOError as exc:
+            # the file system failed while the worker was winding up after
+            # abor (closing its file): abor is answered all the same
+            while exc is not None and not isinstance(exc, asyncio.CancelledError):
+                exc = exc.__context__
+            if exc is None:
+                raise
+            connection.response("451", "file system error")
+            connection.response("226", "abort successful")
 
     return wrapper
 
@@ -1708,6 +1717,10 @@ class Server:
 
     @ConnectionConditions(ConnectionConditions.login_required)
     async def abor(self, connection, rest):
+        # a worker which has just finished is answered for (by the
+        # dispatcher) before abor is
+        while any(w.done() for w in connection.extra_workers):
+            await asyncio.sleep(0)
         workers = [w for w in connection.extra_workers if not w.done()]
         if workers:
             for worker in workers:
